@@ -32,8 +32,13 @@ theorem validate_sound (c : Config) (h : validate false c = []) : Safe c := by
     valQueryLog, valFltGroups, valSrvGroups, valConnCheck, valAccess, valConnN] at h
   constructor <;> first | omega | (simp_all; done) | (simp_all; omega) | grind
 
-/-- **safe_build_ok.** With safe values none of the start-up constructors panics. -/
-theorem safe_build_ok (c : Config) (s : Safe c) : build c = .ok () := by
+/-- The channels of the interface listeners can be allocated (`8n ≤ maxAlloc - hchanSize`). -/
+def ChanFits (c : Config) : Prop := c.pIl = true → c.ilBuf * 8 ≤ chanAllocLimit
+
+/-- With safe values the start-up constructors do exactly this: nothing panics except the channel
+allocation of the interface listeners when the configured buffer cannot be allocated at all. -/
+theorem safe_build_eq (c : Config) (s : Safe c) :
+    build c = if c.pIl = true ∧ c.ilBuf * 8 > chanAllocLimit then .error .chanAlloc else .ok () := by
   have h1 := s.conn; have h2 := s.caSize; have h3 := s.caEcs; have h4 := s.flSizes
   have h5 := s.sb; have h6 := s.ab; have h7 := s.geo; have h8 := s.il; have h9 := s.dnsTimeouts
   have h10 := s.caType
@@ -44,23 +49,52 @@ theorem safe_build_ok (c : Config) (s : Safe c) : build c = .ok () := by
   have l : ∀ f n, 0 < n → lru f n = .ok () := by intro f n h; simp [lru]; omega
   unfold build
   simp only [e1, e2, e3, if_false, l _ _ h4.1, l _ _ h4.2.1, l _ _ h4.2.2.1, l _ _ h5.1, l _ _ h6.1, l _ _ h7.1, l _ _ h7.2.1]
-  rcases (by omega : c.caSize = 0 ∨ 0 < c.caSize) with hs | hs
-  · simp [cacheType, hs, bind, Except.bind, pure, Except.pure]
-  · have ne : c.caSize ≠ 0 := by omega
-    rcases h10 with ht | ht
-    · simp [cacheType, ne, ht, l _ _ hs, bind, Except.bind, pure, Except.pure]
-    · simp [cacheType, ne, ht, l _ _ hs, l _ _ (h3 ht), bind, Except.bind, pure, Except.pure]
+  by_cases hc : c.pIl = true ∧ c.ilBuf * 8 > chanAllocLimit
+  · rcases (by omega : c.caSize = 0 ∨ 0 < c.caSize) with hs | hs
+    · simp [cacheType, hs, hc, bind, Except.bind, pure, Except.pure, throw, throwThe, MonadExceptOf.throw]
+    · have ne : c.caSize ≠ 0 := by omega
+      rcases h10 with ht | ht
+      · simp [cacheType, ne, ht, hc, l _ _ hs, bind, Except.bind, pure, Except.pure, throw, throwThe,
+          MonadExceptOf.throw]
+      · simp [cacheType, ne, ht, hc, l _ _ hs, l _ _ (h3 ht), bind, Except.bind, pure, Except.pure, throw,
+          throwThe, MonadExceptOf.throw]
+  · rcases (by omega : c.caSize = 0 ∨ 0 < c.caSize) with hs | hs
+    · simp [cacheType, hs, hc, bind, Except.bind, pure, Except.pure]
+    · have ne : c.caSize ≠ 0 := by omega
+      rcases h10 with ht | ht
+      · simp [cacheType, ne, ht, hc, l _ _ hs, bind, Except.bind, pure, Except.pure]
+      · simp [cacheType, ne, ht, hc, l _ _ hs, l _ _ (h3 ht), bind, Except.bind, pure, Except.pure]
 
-/-- Sizes the operating system may refuse: the two `known` findings (no documented upper bound). -/
+/-- **safe_build_ok.** With safe values and channel buffers that can be allocated none of the
+start-up constructors panics. -/
+theorem safe_build_ok (c : Config) (s : Safe c) (hf : ChanFits c) : build c = .ok () := by
+  rw [safe_build_eq c s, if_neg]
+  intro ⟨a, b⟩; have := hf a; omega
+
+/-- **safe_build_modes.** Full strength, no size hypothesis: with safe values start-up succeeds or
+fails in exactly one way — the channel allocation of the interface listeners for a buffer size
+of 2^45 − 11 entries or more (round-4 finding `accepted-then-panic:huge-channel-buffer-size`). -/
+theorem safe_build_modes (c : Config) (s : Safe c) :
+    build c = .ok () ∨ (build c = .error .chanAlloc ∧ c.pIl = true ∧ chanAllocLimit < c.ilBuf * 8) := by
+  rw [safe_build_eq c s]
+  by_cases hc : c.pIl = true ∧ c.ilBuf * 8 > chanAllocLimit
+  · exact Or.inr ⟨by rw [if_pos hc], hc.1, hc.2⟩
+  · exact Or.inl (by rw [if_neg hc])
+
+example : ChanFits dist := by intro _; decide
+example : build { dist with ilBuf := 35184372088821 } = .error .chanAlloc := by decide
+example : build { dist with ilBuf := 35184372088820 } = .ok () := by decide
+
+/-- Sizes the operating system may refuse: the three `known` findings (no documented upper bound). -/
 def Bounded (c : Config) : Prop :=
-  c.v4Count < allocLimit ∧ c.v6Count < allocLimit ∧ c.tcpMax ≤ maxInt
+  c.v4Count < allocLimit ∧ c.v6Count < allocLimit ∧ c.tcpMax ≤ maxInt ∧ ChanFits c
 
 /-- **safe_handle_partial.** With safe values and counts below the allocation limit every query —
 IPv4 or IPv6, UDP or TCP, any response size — is served: no division by zero, no invalid prefix,
 no stuck pipeline, no window that admits nothing. -/
 theorem safe_handle_partial (c : Config) (s : Safe c) (b : Bounded c) (q : Query) :
     ∃ w, handle c q = .ok (.served w) := by
-  obtain ⟨b1, b2, b3⟩ := b
+  obtain ⟨b1, b2, b3, _⟩ := b
   have h1 := s.tcp; have h2 := s.v4Len; have h3 := s.v6Len; have h4 := s.v4Count; have h5 := s.v6Count
   have h6 := s.est
   unfold allocLimit at b1 b2; unfold maxInt at b3
@@ -84,7 +118,7 @@ theorem accepted_serves_partial (c : Config) (h : validate false c = []) (b : Bo
     ∃ w, run c q = .ok (.served w) := by
   have s := validate_sound c h
   obtain ⟨w, hw⟩ := safe_handle_partial c s b q
-  exact ⟨w, by simp [run, safe_build_ok c s, hw, bind, Except.bind]⟩
+  exact ⟨w, by simp [run, safe_build_ok c s b.2.2.2, hw, bind, Except.bind]⟩
 
 /-- The rate-limit count that applies to `q`. -/
 def countOf (c : Config) (q : Query) : Int := if q.is4 then c.v4Count else c.v6Count
@@ -130,25 +164,35 @@ theorem safe_handle_modes (c : Config) (s : Safe c) (q : Query) :
         unfold handle
         simp [e1, hm, hq, hs, e5, a1, a2, bind, Except.bind, pure, Except.pure]
 
-/-- **accepted_failure_modes.** Full strength: an accepted configuration starts, and every query
-is served unless it runs into one of the two recorded unbounded-size findings. -/
+/-- **accepted_failure_modes.** Full strength: an accepted configuration starts and every query is
+served, unless it runs into one of the three recorded unbounded-size findings: the channel buffers
+of the interface listeners at start-up, the request counter or the TCP pipeline semaphore on a
+query. -/
 theorem accepted_failure_modes (c : Config) (h : validate false c = []) (q : Query) :
     (∃ w, run c q = .ok (.served w)) ∨
     (run c q = .error .makeslice ∧ allocLimit ≤ countOf c q) ∨
-    (run c q = .error .makechan ∧ q.tcp = true ∧ c.tcpEnabled = true ∧ maxInt < c.tcpMax) := by
+    (run c q = .error .makechan ∧ q.tcp = true ∧ c.tcpEnabled = true ∧ maxInt < c.tcpMax) ∨
+    (run c q = .error .chanAlloc ∧ c.pIl = true ∧ chanAllocLimit < c.ilBuf * 8) := by
   have s := validate_sound c h
-  have hr : run c q = handle c q := by simp [run, safe_build_ok c s, bind, Except.bind]
-  rw [hr]
-  exact safe_handle_modes c s q
+  rcases safe_build_modes c s with hb | ⟨hb, hp, hl⟩
+  · have hr : run c q = handle c q := by simp [run, hb, bind, Except.bind]
+    rw [hr]
+    rcases safe_handle_modes c s q with h1 | h2 | h3
+    · exact Or.inl h1
+    · exact Or.inr (Or.inl h2)
+    · exact Or.inr (Or.inr (Or.inl h3))
+  · exact Or.inr (Or.inr (Or.inr ⟨by simp [run, hb, bind, Except.bind], hp, hl⟩))
 
-/-- All three modes occur (the statement is not vacuously a two-way split). -/
+/-- All four modes occur (the statement is not vacuously a two-way split). -/
+example : run { dist with ilBuf := 9223372036854775807 } { is4 := true, tcp := false, respLen := 1 } =
+    .error .chanAlloc := by decide
 example : run dist { is4 := false, tcp := false, respLen := 9000 } = .ok (.served 8) := by decide
 example : run { dist with v6Count := 35184372088832 } { is4 := false, tcp := false, respLen := 1 } =
     .error .makeslice := by decide
 example : run { dist with tcpMax := 9223372036854775808 } { is4 := true, tcp := true, respLen := 1 } =
     .error .makechan := by decide
 
-example : Bounded dist := ⟨by decide, by decide, by decide⟩
+example : Bounded dist := ⟨by decide, by decide, by decide, by intro _; decide⟩
 example : run dist { is4 := true, tcp := true, respLen := 3000 } = .ok (.served 2) := by decide
 
 /-- **reject_names_property.** Every error reported for a rejected configuration names a property
@@ -320,13 +364,99 @@ example : validate false { dist with proto1 := "bogus" } = [(.sgProto1, .enum)] 
 example : validate false { dist with proto1 := "dns", proto2 := "dns", proto3 := "dns" } = [(.sgTls, .cross)] := by decide
 example : validate false { dist with fg0Id := "family" } = [(.fg1Id, .dup)] := by decide
 
+/-- **huge_chanbuf_counterexample.** Round-4 finding: `interface_listeners.channel_buffer_size` has no
+upper bound; 2^63 − 1 is accepted and `bindtodevice.Manager.Add` panics at start-up with
+`makechan: size out of range` (known finding `accepted-then-panic:huge-channel-buffer-size`). -/
+theorem huge_chanbuf_counterexample :
+    ¬ ∀ (c : Config) (q : Query), validate false c = [] → ∀ p, run c q ≠ .error p := by
+  intro h
+  exact h { dist with ilBuf := 9223372036854775807 } { is4 := true, tcp := false, respLen := 60 }
+    (by decide) .chanAlloc (by decide)
+
+/-! ## Enumerations that refer to the environment (round 4) -/
+
+/-- **env_checked_builds.** When the environment passes the checks that depend on the configuration,
+the builder steps that dereference the selected variables (`newRemoteKV`, `initRateLimiter`) do not
+panic: no nil URL, no empty LRU, no unknown store type — for every accepted configuration. -/
+theorem env_checked_builds (c : Config) (e : Env) (h : validate false c = []) (he : envCheck c e = []) :
+    envBuild c e = .ok () := by
+  have hk : violates c .ckKvType = false := accepted_meets_documented c h .ckKvType
+  have ha : violates c .rlAlType = false := accepted_meets_documented c h .rlAlType
+  simp only [violates, Bool.not_eq_false', decide_eq_true_eq] at hk ha
+  simp only [envCheck, needUrl, List.append_eq_nil_iff] at he
+  obtain ⟨he1, he2⟩ := he
+  have k : kvBuild c e = .ok () := by
+    unfold kvBuild
+    by_cases b1 : c.kvType = "backend"
+    · simp only [b1, if_true] at he1 ⊢
+      by_cases g : e.kvUrl = .good <;> simp_all
+    · by_cases b2 : c.kvType = "cache"
+      · simp only [b1, b2, if_true, if_false] at he1 ⊢
+        by_cases g : e.kvSize ≤ 0 <;> simp_all
+      · have : c.kvType = "redis" ∨ c.kvType = "consul" := by
+          rcases hk with h | h | h | h <;> simp_all
+        simp [b1, b2, this]
+  have r : rlBuild c e = .ok () := by
+    unfold rlBuild
+    by_cases b1 : c.alType = "consul"
+    · have nb : c.alType ≠ "backend" := by rw [b1]; decide
+      simp only [b1, if_true] at he2
+      by_cases g : e.consulUrl = .good <;> simp_all
+    · have bb : c.alType = "backend" := by rcases ha with h | h <;> simp_all
+      simp only [b1, if_false] at he2
+      by_cases g : e.rlUrl = .good <;> simp_all
+  simp [envBuild, k, r]
+
+/-- **env_accepts_iff.** The check accepts exactly the environments in which no selected variable is
+missing or unusable. -/
+theorem env_accepts_iff (c : Config) (e : Env) : envCheck c e = [] ↔ ∀ v, envViolates c e v = false := by
+  constructor
+  · intro h v
+    cases hv : envViolates c e v with
+    | false => rfl
+    | true =>
+      exfalso
+      simp only [envCheck, needUrl, List.append_eq_nil_iff] at h
+      obtain ⟨h1, h2⟩ := h
+      cases v <;> simp only [envViolates, Bool.and_eq_true, decide_eq_true_eq, Bool.not_eq_true',
+        bne_iff_ne, ne_eq] at hv <;> simp_all
+  · intro h
+    have a1 := h .kvUrl; have a2 := h .kvSize; have a3 := h .redisAddr; have a4 := h .redisIdle
+    have a5 := h .redisMaxActive; have a6 := h .redisMaxIdle; have a7 := h .rlUrl; have a8 := h .consulUrl
+    simp only [envViolates, Bool.and_eq_false_iff, decide_eq_false_iff_not, bne_eq_false_iff_eq,
+      Bool.not_eq_false'] at a1 a2 a3 a4 a5 a6 a7 a8
+    simp only [envCheck, needUrl, List.append_eq_nil_iff]
+    constructor
+    · by_cases b1 : c.kvType = "backend"
+      · simp_all
+      · by_cases b2 : c.kvType = "cache"
+        · simp_all
+        · by_cases b3 : c.kvType = "redis"
+          · simp_all
+          · simp [b1, b2, b3]
+    · by_cases b1 : c.alType = "consul" <;> simp_all
+
+/-- Without the check the builder crashes: the store type `cache` with an unset cache size. -/
+theorem env_unchecked_counterexample : envBuild dist { kvSize := 0 } = .error .kvLru := by decide
+
+example : envCheck dist { kvSize := 100 } = [] ∧ validate false dist = [] := by decide
+example : envCheck { dist with kvType := "redis" } { redisIdle := 0, redisMaxIdle := -1 } =
+    [.redisAddr, .redisIdle, .redisMaxIdle] := by decide
+example : envCheck { dist with alType := "backend" } { kvSize := 1, rlUrl := .badScheme } = [.rlUrl] := by decide
+
 /-- **parse_range.** Values that do not fit the Go type never reach validation. -/
 theorem parse_range_uint (v : Int) : Ty.inRange .uint v = true ↔ 0 ≤ v ∧ v < 18446744073709551616 := by
   simp [Ty.inRange]; omega
 
 #print axioms accepted_meets_documented
 #print axioms validate_sound
+#print axioms safe_build_eq
 #print axioms safe_build_ok
+#print axioms safe_build_modes
+#print axioms huge_chanbuf_counterexample
+#print axioms env_checked_builds
+#print axioms env_accepts_iff
+#print axioms env_unchecked_counterexample
 #print axioms safe_handle_partial
 #print axioms accepted_serves_partial
 #print axioms safe_handle_modes
